@@ -26,12 +26,13 @@ Proof.
            | |- context [match free p with _ => _ end] => destruct (free p) eqn:?
            | |- context [match queue p with _ => _ end] => destruct (queue p) eqn:?
            | |- context [match sessions p with _ => _ end] => destruct (sessions p) eqn:?
+           | |- context [if a_cancel ?x then _ else _] => destruct (a_cancel x) eqn:?
            | |- context [if cancelled p then _ else _] => destruct (cancelled p) eqn:?
            | |- context [if a_conn_ok ?x then _ else _] => destruct (a_conn_ok x) eqn:?
            | |- context [if a_sess_ok ?x then _ else _] => destruct (a_sess_ok x) eqn:?
            | |- context [if a_ping_ok ?x then _ else _] => destruct (a_ping_ok x) eqn:?
            end;
-    constructor; unfold held, attempt_open, mk; cbn; rewrite ?Eph; try (intros; lia); try (intros H; exfalso; apply H; reflexivity).
+    constructor; unfold held, attempt_open, mk, cancel_of; cbn; rewrite ?Eph; try (intros; lia); try (intros H; exfalso; apply H; reflexivity).
 Qed.
 
 Theorem run_inv l : forall p, Inv p -> Inv (run p l).
@@ -80,13 +81,13 @@ Qed.
 (* one successful attempt offered to a waiting provider adds exactly one session *)
 Theorem good_attempt_adds_session p :
   ph p = Waiting -> queue p = [] -> cancelled p = false ->
-  let good := {| a_conn_ok := true; a_sess_ok := true; a_ping_ok := true |} in
+  let good := {| a_conn_ok := true; a_sess_ok := true; a_ping_ok := true; a_cancel := false |} in
   let p' := run p [Offer good; Connect; MakeSession; FirstPing] in
   sessions p' = S (sessions p) /\ ph p' = Idle /\ free p' = free p.
 Proof.
   intros Hph Hq Hc. unfold run. cbn [fold_left].
-  assert (E1 : pstep p (Offer {| a_conn_ok := true; a_sess_ok := true; a_ping_ok := true |})
-               = mk p (free p) Waiting (sessions p) (opened p) [{| a_conn_ok := true; a_sess_ok := true; a_ping_ok := true |}]).
+  assert (E1 : pstep p (Offer {| a_conn_ok := true; a_sess_ok := true; a_ping_ok := true; a_cancel := false |})
+               = mk p (free p) Waiting (sessions p) (opened p) [{| a_conn_ok := true; a_sess_ok := true; a_ping_ok := true; a_cancel := false |}]).
   { cbn [pstep]. rewrite Hph, Hq. reflexivity. }
   rewrite E1. unfold mk. cbn. rewrite Hc. cbn. auto.
 Qed.
